@@ -2,6 +2,7 @@ package validator
 
 import (
 	"context"
+	"fmt"
 	c "github.com/aml-org/amf-custom-validator/pkg/config"
 	e "github.com/aml-org/amf-custom-validator/pkg/events"
 	"github.com/open-policy-agent/opa/rego"
@@ -64,7 +65,18 @@ func ValidateCompiledWithConfiguration(compiledRegoPtr *rego.PreparedEvalQuery, 
 
 func executeValidation(eventChan *chan e.Event, err error, compiledRego rego.PreparedEvalQuery, normalizedInput any) (*rego.ResultSet, error) {
 	dispatchEvent(e.NewEvent(e.OpaValidationStart), eventChan)
-	validationResult, err := compiledRego.Eval(context.Background(), rego.EvalInput(normalizedInput))
+	validationResult, err := eval(compiledRego, normalizedInput)
 	dispatchEvent(e.NewEvent(e.OpaValidationDone), eventChan)
 	return &validationResult, err
+}
+
+// eval evaluates the policy on the data; the engine panics on some values it cannot represent (a number such as 1e99999999999
+// in a comparison: "illegal value"): report it as an error like every other evaluation failure
+func eval(compiledRego rego.PreparedEvalQuery, normalizedInput any) (result rego.ResultSet, err error) {
+	defer func() {
+		if r := recover(); r != nil {
+			result, err = nil, fmt.Errorf("cannot evaluate the policy: %v", r)
+		}
+	}()
+	return compiledRego.Eval(context.Background(), rego.EvalInput(normalizedInput))
 }
